@@ -5,6 +5,7 @@ import random
 from decimal import Decimal
 
 import vlib
+import c08consts
 from runner import Property, ExecError
 from vlib import cz, clist, cbool, cstr, copt
 
@@ -1743,6 +1744,22 @@ class C08(Property):
         "anonymous/embedded fields, pointers to slices/maps, []byte from base64, default= on slices, strings holding JSON "
         "for slice/map fields, hexadecimal or '_'-separated number strings, fillDefault mode",
     ]
+
+    proof_targets = ["theories/C08/Props.vo", "theories/C08/Pinned.vo", "theories/C08/PinnedK.vo",
+                     "theories/C08/GenProofs.vo"]
+
+    def regen(self, ctx):
+        """constants re-extracted from the Go sources -> coq/gen/C08Consts.v (obligations: GenProofs.v);
+        the front-end limits and the order of the passes that the generator mirrors follow the source"""
+        global MAX_FORM_VALUES, MAX_BODY, PARSE_ORDER
+        c, notes = c08consts.regen()
+        MAX_FORM_VALUES = c["maxFormParamCount"]
+        MAX_BODY = c["maxBodyLen"]
+        order = [{"ParsePath": "path", "ParseForm": "form", "ParseHeaders": "header", "ParseJsonBody": "json"}[x]
+                 for x in c["parse_order"]]
+        if sorted(order) == sorted(PARSE_ORDER):
+            PARSE_ORDER = order
+        return notes
 
     def prepare(self, ctx):
         ok, res = vlib.go_build("c08")
